@@ -328,3 +328,33 @@ where
 pub fn idx(i: u16, len: usize) -> usize {
     if len == 0 { 0 } else { ((i as usize) * len) >> 16 }
 }
+
+/// Evaluate one enumerated (non-proptest) case: accounts it, tolerates known findings, records at
+/// most one violation per (clause, finding) signature.
+pub fn eval_enumerated<T, F>(ctx: &Ctx, rep: &mut Report, sub: &str, case: &T, check: F)
+where
+    T: Serialize,
+    F: Fn(&T, &mut CaseInfo) -> Result<(), Fail>,
+{
+    let mut info = CaseInfo::default();
+    let r = match std::panic::catch_unwind(std::panic::AssertUnwindSafe(|| check(case, &mut info))) {
+        Ok(r) => r,
+        Err(p) => Err(Fail::new("harness-panic", panic_msg(&p))),
+    };
+    match r {
+        Ok(()) => rep.account(sub, case, &info),
+        Err(f) => {
+            if let Some(id) = &f.finding {
+                if ctx.is_known(id) {
+                    info.known_hits.push((id.clone(), format!("{}: {}", f.clause, f.msg)));
+                    rep.account(sub, case, &info);
+                    return;
+                }
+            }
+            let dup = rep.violations.iter().any(|v| v["sub"] == sub && v["clause"] == f.clause.as_str() && v["finding"] == json!(f.finding));
+            if !dup {
+                rep.violation(sub, case, &f, false);
+            }
+        }
+    }
+}
